@@ -68,6 +68,7 @@ func genAtomic(r *core.Rand, tier string) *atomicCase {
 	}
 	nslots := nfixed + r.Range(1, 4) // the rest are auto-id slots
 	live := make([]bool, nslots)
+	tomb := make([]bool, nslots) // removed and (as far as the generator knows) not yet purged
 	version := make([]int, nslots)
 	everAdded := make([]bool, nslots)
 	maxOps := 25
@@ -98,7 +99,7 @@ func genAtomic(r *core.Rand, tier string) *atomicCase {
 				v[0] = 1
 			}
 			if fail == 1 {
-				if c.Metric == "cosine" && r.Bool() {
+				if c.Metric == "cosine" && r.Chance(0.7) {
 					for j := range v {
 						v[j] = 0
 					}
@@ -157,7 +158,7 @@ func genAtomic(r *core.Rand, tier string) *atomicCase {
 			}
 			slot := free[r.Intn(len(free))]
 			fail := 0
-			switch r.Pick(12, 2, 2) {
+			switch r.Pick(11, 3, 2) {
 			case 1:
 				if c.HasV {
 					fail = 1
@@ -167,7 +168,22 @@ func genAtomic(r *core.Rand, tier string) *atomicCase {
 					fail = 3
 				}
 			}
+			if fail != 0 {
+				// a failing add is most dangerous on an id that is still tombstoned (removed, not yet purged)
+				var ts []int
+				for s := range live {
+					if !live[s] && tomb[s] {
+						ts = append(ts, s)
+					}
+				}
+				if len(ts) > 0 && r.Chance(0.7) {
+					slot = ts[r.Intn(len(ts))]
+				}
+			}
 			cmd := mkDoc(slot, fail)
+			if fail == 0 {
+				tomb[slot] = false
+			}
 			if slot < len(c.FixedIDs) || everAdded[slot] {
 				cmd.Op = "addid"
 			} else {
@@ -195,10 +211,16 @@ func genAtomic(r *core.Rand, tier string) *atomicCase {
 				}
 			}
 			c.Cmds = append(c.Cmds, atomicCmd{Op: "remove", Slot: slot})
+			if live[slot] {
+				tomb[slot] = true
+			}
 			live[slot] = false
 			probes(slot)
 		case 2:
 			c.Cmds = append(c.Cmds, atomicCmd{Op: "flush"})
+			for s := range tomb {
+				tomb[s] = false
+			}
 			probes(-1)
 		}
 	}
